@@ -5,7 +5,7 @@ CHECKS = [
           "L<=9 (quick) / 16 (thorough), every class x 7-9 rates (mHz..GHz) x start/none, fast_len, cropped time shifts, every "
           "whole-sample snippet, dedispersion crops; plus breadth-first search over pipelines of 16 crop operations to depth 3/4 "
           "with state de-duplication on (ledger, jd bits). Oracle: exact-rational ledger on the Time two-double; payload "
-          "index-encoding traces pure crops bit-exactly; contains(t) against the exact half-open interval.",
+          "index-encoding traces pure crops bit-exactly; contains(t) against the exact half-open interval. Plus assignment histories (read derived values / assign sample_rate or start_time / use, depth 3) on one object: everything derived must follow the current attributes.",
   "note": "Trusts astropy Time (jd1, jd2) as the time representation, Python Fractions, and the independent dispersion-delay "
           "formula for dedispersion crops; FFT-based crops are checked for their ledger only (values in C03/C05).",
   "technique": "explicit-state BFS over operation sequences on real objects + exhaustive single-step enumeration, exact rational reference ledger"},
@@ -13,7 +13,7 @@ CHECKS = [
   "text": "Bounded exhaustive exploration: 5 radio classes x nchan 1..6 (9 thorough) x 3 alignments x 6-8 bands in mixed units; "
           "every non-empty channel range spelling, nested ranges from every distinct reached state (de-duplicated on range, "
           "centre bits, alignment), third level, combined time+frequency slices, Stokes and trailing-axis selection; labels "
-          "compared with the band formula in Fractions.",
+          "compared with the band formula in Fractions. Plus assignment histories (read labels / assign freq_align, center_freq, chan_bw / slice, depth 3) on one object and NumPy-integer bounds.",
   "note": "Trusts exact decimal unit scales of astropy units and Fractions; tolerance 8 ulp of max(|fc|, n*bw) per nesting level.",
   "technique": "explicit-state enumeration of slicing sequences (depth 3) on real objects with state de-duplication, exact rational band model"},
  {"property_id": "C03",
@@ -21,7 +21,7 @@ CHECKS = [
           "5-6 sample shapes x EVERY broadcastable shift-array shape (scalar, each prefix with axes full or length 1) x 17 uniform "
           "+ 5 mixed-sign fillings x number/Quantity form x crop on/off; input is a complete basis (e_j, i e_j), which determines "
           "the linear operator on every input, plus payload and a linearity check. Oracle: long-double DFT delay operator per "
-          "element, exact 0.0 on out-of-range rows, crop=True == crop=False minus edges.",
+          "element, exact 0.0 on out-of-range rows, crop=True == crop=False minus edges. Shift fillings include negative zeros; Quantity shifts are given in s, ms and us at 8 Hz, 1 kHz and 1 MHz (units not reciprocal to the rate's unit).",
   "note": "Trusts the O(N^2) long-double DFT built from the definition (self-tested against numpy.fft); budget 16*eps32; Nyquist-bin "
           "convention for complex even-N fractional shifts left open.",
   "technique": "bounded exhaustive enumeration of configurations on the real code, complete-basis operator identification against a long-double DFT reference model"},
@@ -29,7 +29,7 @@ CHECKS = [
   "text": "Bounded exhaustive exploration of freq_shift: N in {1..16} (32 thorough) x complex64/128 x 4-5 channel/pol shapes x 3-5 "
           "rates/units x every broadcastable shift shape x 15 uniform + 4 mixed fillings (whole, fractional, |b|>=N); complete "
           "basis + payload; each element compared with the long-double mix/DFT/zero/IDFT reference and the wrapped bins of the "
-          "output spectrum must vanish; error contract (TypeError/ValueError).",
+          "output spectrum must vanish; error contract (TypeError/ValueError). Fillings include negative zeros; the same (N, shift) is alternated between complex64 and complex128 in one process (no dependence on call history).",
   "note": "Trusts the long-double DFT reference; budget 64*eps(dtype)*N; the single boundary bin is open when the exact shift is "
           "within 1e-9 of, but not equal to, a whole bin.",
   "technique": "bounded exhaustive enumeration of configurations on the real code, complete-basis operator identification against a long-double DFT reference model"},
@@ -38,7 +38,7 @@ CHECKS = [
           "alignments x 7 reference placements x N in {8,12,15,16,32} x trailing dims x complex64/128: chirp arrays against "
           "exp(-2 pi i frac(phi)) with phi in exact Fractions reduced mod 1; the dedispersed complete basis against long-double "
           "IDFT(DFT(x)H) on the exact valid window; supplied chirp == internal; start_time; plus wave-packet group-delay sign "
-          "and DM/-DM restoration on band-limited compact inputs.",
+          "and DM/-DM restoration on band-limited compact inputs. References include an infinite reference frequency.",
   "note": "Trusts Fractions, the long-double DFT and the stated constant; budget 8 eps32 + float64 cancellation term; Nyquist-bin "
           "frequency convention and band-edge delays within 1e-9 of an integer are left open.",
   "technique": "bounded exhaustive enumeration of configurations on the real code, complete-basis operator identification against an exact-phase long-double reference model"},
@@ -47,7 +47,7 @@ CHECKS = [
           "of 7 frequencies (Hz/MHz/GHz, scalar and array) x 4 rates against the exact rational f^-2 law, antisymmetry and chain "
           "additivity; incoherent_dedispersion on 5 classes x nchan 1..5 x 3 alignments x N in {6,12,24} x start/none x 7 "
           "reference placements x 11 sweeps (both signs, up to beyond the block): EVERY returned sample is decoded from an "
-          "index-encoding payload and must be the input sample at T + round(delay_i)/sr, in-range, same element.",
+          "index-encoding payload and must be the input sample at T + round(delay_i)/sr, in-range, same element. Includes an infinite reference frequency for the law and for incoherent dedispersion.",
   "note": "Trusts Fractions, the stated constant K = 1/2.41e-4 and astropy unit scales; completeness is deliberately weak (any sound "
           "window accepted); delays within 1e-9 of a half-integer are left open.",
   "technique": "bounded exhaustive enumeration of configurations on the real code with per-sample source tracing against an exact rational delay model"},
@@ -56,7 +56,7 @@ CHECKS = [
           "contiguous grouping and both folds (associativity) on 6 classes x 6 rates x L in {1,4,6}; EVERY sequence of 2-3 index "
           "ranges along time and 1-4 ranges along frequency (contiguous or not: gaps, overlaps, swaps, compensating gap+overlap) "
           "must be joined exactly or rejected; metadata perturbation menu (+-1,+-2,+-1/2 sample, rate/bw x(1+-1e-3), centre +-1 "
-          "channel, class, other-axis mismatch).",
+          "channel, class, other-axis mismatch). Perturbations are also made by ASSIGNMENT on pieces whose labels were already read, and one-sample errors are placed 1e5 and 2.5e5 samples after the first piece (no tolerance growing with elapsed time).",
   "note": "Trusts Fractions on the Time two-double; a sequence is required to be rejected only when two non-empty start-bearing "
           "pieces are inconsistent by >= 1 sample; any exception class counts as rejection.",
   "technique": "bounded exhaustive enumeration of split/join operation sequences on real objects (model = the original signal), differential associativity oracle"},
@@ -65,7 +65,7 @@ CHECKS = [
           "quarter-sample t in [-1,N+1] x EVERY n in [-1,N+1] x 4 forms of t (int, float, Quantity, Time), on a complete basis; "
           "plus long signals (N=40000) with large fractional offsets against a float64 FFT reference. Whole counts must equal "
           "z[t:t+n] bit-exactly, other requests the long-double DFT interpolation at the exactly computed instant; out-of-range, "
-          "n<0 and Time-without-start must raise ValueError.",
+          "n<0 and Time-without-start must raise ValueError. Requests a few nano-samples off a whole sample and a request after re-assigning sample_rate on the same object are included.",
   "note": "Trusts the long-double DFT reference and exact conversion of each form to samples; Quantity/Time requests exactly on the "
           "boundary and the start_time of empty results are left open.",
   "technique": "bounded exhaustive enumeration of inputs on the real code, complete-basis operator identification against a long-double DFT reference model"},
@@ -74,7 +74,7 @@ CHECKS = [
           "values thorough) x both starting bases x complex64/128 x 5-7 (nchan, alignment) configurations x trailing dims x "
           "NumPy and three Dask layouts (single chunk, multi-chunk, chunked along the polarisation axis): to_circular/to_linear "
           "values, unitarity, round trip, identity in own basis, Stokes from either basis, I^2=Q^2+U^2+V^2, I>=0, "
-          "to_intensity, component access by name and attribute, types and metadata.",
+          "to_intensity, component access by name and attribute, types and metadata. Histories on one object: read a Stokes component, modify in place, read again; convert after in-place change and after assigning pol_type; all alignment / polarisation strings are built at run time (equality, not identity).",
   "note": "Trusts long-double evaluation of the documented formulas on exactly representable inputs; budget 8 eps(dtype) max|.| "
           "(16 eps max^2 for quadratic quantities).",
   "technique": "exhaustive enumeration of a finite value grid and configuration space on the real code against an exact formula model"},
@@ -90,7 +90,7 @@ CHECKS += [
   "text": "Bounded exhaustive exploration of real_to_complex: N in 0..16 (33 thorough) x EVERY vector of {-1,0,1}^N for N<=7 (full "
           "basis, all pairwise sums/differences, alternating and constant vectors above) x 11 real dtypes x rank 1..3 x every axis "
           "incl. negative; output compared with the definition (analytic weights, quarter-rate mix, decimation) through "
-          "long-double DFT matrices; shape, dtype rule, real-part identity, tone mapping w -> w-N/4, linearity, complex refused.",
+          "long-double DFT matrices; shape, dtype rule, real-part identity, tone mapping w -> w-N/4, linearity, complex refused. C-, Fortran- and strided inputs; other axes of length zero; two same-shape calls on two threads under the cooperative scheduler (every interleaving with <= 1 / 2 preemptions).",
   "note": "Trusts the long-double DFT matrices; accuracy demanded at single precision for float16/float32 inputs (scipy.fft "
           "computes half precision in single), double otherwise.",
   "technique": "exhaustive enumeration of all small input vectors and layouts on the real code against a long-double reference model"},
@@ -114,7 +114,7 @@ CHECKS += [
           "0-d/1-d/2-d arrays, lists, dimensionless/cycle/degree Quantities, Angle, Phase, Phase arrays) x both operand orders x "
           "real/imaginary, for construction (1 and 2 operands), + - neg abs, * / by 16 factors + imaginary factors, // % divmod "
           "np.divmod by 6 divisors x 4 kinds, sin/cos/tan/exp, out= forms, and the whole grid as one array. Oracle: Fractions "
-          "of the operands' stored doubles, 2^-52 cycles, normalisation, type (never a silent single double), i*i=-1.",
+          "of the operands' stored doubles, 2^-52 cycles, normalisation, type (never a silent single double), i*i=-1. In-place and out= forms that switch a target between real and imaginary are included.",
   "note": "Trusts Fractions; results beyond 2^52 cycles and plain-number divisors of // % divmod (astropy unit error) are outside / open.",
   "technique": "bounded exhaustive enumeration of a value grid x operand-kind alphabet on the real code against an exact rational reference model"},
  {"property_id": "C15",
@@ -134,7 +134,7 @@ CHECKS += [
           "multiples of 3), e/E/D/d exponents, span, F0, RPHASE up to 1e12; file order shuffled) and the shipped timing.dat, every "
           "row subset; per entry a 13-point time grid incl. ends +-1 us; scalar, sorted, reversed, interleaved and 2-D array "
           "calls; f0 with n=0,1,2; phasepol then predictions again (history); time_at; out-of-span and mixed-entry rejections; "
-          "interval merging. Oracle: the tempo formula in Fractions on the decimal strings.",
+          "interval merging. Oracle: the tempo formula in Fractions on the decimal strings. Outside points include 10 ns and 100 ns beyond span edges; reference phases include >= 1e11 with fraction .999999.",
   "note": "Trusts Fractions, an independent text parser/generator and the exact (jd1, jd2) of Time; budget 1e-8 cycle + "
           "F0*86400*2^-51; times inside a <1 ms gap and exactly on span ends are left open.",
   "technique": "bounded exhaustive enumeration of generated inputs and call histories on the real code against an exact rational reference model"},
@@ -143,7 +143,7 @@ CHECKS += [
           "zero-length) x 13 dtypes x NumPy/Dask constructors with validity predicted from the contract (np.can_cast safe rule); "
           "metadata menus one at a time and all pairs; every setter with every menu value; every output of all 56 catalogue "
           "operations on both backends and after a stepped slice; like() with and without overrides and across classes; pickle, "
-          "cloudpickle, deepcopy, compute, persist, to_dask_array, rechunk.",
+          "cloudpickle, deepcopy, compute, persist, to_dask_array, rechunk. One-element arrays are in every metadata menu; after each valid assignment like()/pickle/deepcopy/slice must carry the current attributes and derived values.",
   "note": "Trusts the contract checker pbmc/invariants.py (written from the property statement) and NumPy's safe-cast table.",
   "technique": "bounded exhaustive enumeration of constructor/assignment inputs plus an invariant monitor on every state reached by the operation catalogue"},
  {"property_id": "C17",
@@ -151,7 +151,7 @@ CHECKS += [
           "int, bool, complex) x NumPy/Dask x 12 second-operand kinds x both orders; 18 operators x 4 operand kinds x both orders; "
           "out= forms incl. two-output tuples, in-place operator chains; reduce/accumulate/reduceat/outer/at/matmul refused; "
           "np.asarray/np.array with dtype and copy, and conversion / in-place write / conversion histories. Oracle: the same "
-          "ufunc on the underlying arrays.",
+          "ufunc on the underlying arrays. An out-of-place result must not alias an operand; in-place operators with 7 operand kinds (incl. percent and km/m Quantities) are mirrored on raw arrays; dtype=/casting=/where= keywords.",
   "note": "Trusts NumPy/Dask ufunc results on raw arrays as the reference; (superclass signal, subclass signal) dispatch order left open.",
   "technique": "exhaustive enumeration of the ufunc x operand-arrangement alphabet on the real code with a differential oracle on the raw data"},
 ]
@@ -188,7 +188,7 @@ CHECKS += [
           "sentinel delayed input proving nothing is computed while the result is built; for every operation on the finest layout "
           "EVERY task order within 1 (2 thorough) deviations of Dask's own order under a controlled scheduler; 6 pairs of "
           "pulsarbat task bodies on two threads under the cooperative scheduler with <= 1 (2) preemptions; reader Dask reads with a "
-          "counting wrapper around baseband.open, chunks=, downstream laziness and two readers in one graph.",
+          "counting wrapper around baseband.open, chunks=, downstream laziness and two readers in one graph. Every history of <= 3 (4) container / in-place operations (compute, persist, asarray, *=, +=, out=, rechunk) on ONE Dask-backed signal is mirrored on a NumPy twin.",
   "note": "Trusts the NumPy-path result as reference (itself checked by C01-C20) and Dask's own graph/state bookkeeping used by the "
           "controlled scheduler; real thread/process pools are run once per case, their internal schedules are covered only through "
           "the two explorers; a layout may be rejected (must raise) only when an FFT axis is chunked.",
